@@ -200,9 +200,18 @@ def _cycle_locals(fn, cyc, purity):
             if d is None:
                 variant.add(nm)
                 continue
+            dn = fn.nodes[d]
+            if dn["k"] == "call" and dn.get("member") and dn.get("callee", "").split("::")[-1] in ("acquire", "acquire_if_equal"):
+                # g.acquire(src): the new value of g is a function of src, not of g
+                for a_ in fn.kids(d)[1:]:
+                    dep[nm] |= (_names_in(fn, a_) & set(defs))
+                continue
             dep[nm] |= (_names_in(fn, d) & set(defs))
-            # components: a write to 'x' also changes 'x.f' and vice versa
-            if nm not in declared_on_cycle:   # (a declaration on the cycle creates the variable afresh in every iteration)
+            # a restart idiom (start = &head: the cycle puts a constant / an address into the local that differs from what it held on entry) changes the
+            # state in its first round, and whether the steady state re-enters the cycle rests on a data-structure invariant (the root is never
+            # marked): nothing is claimed.  Re-reading shared memory into the local (seq = _seq.load()) is not a restart: the local holds "the
+            # current shared value" in every round.
+            if nm not in declared_on_cycle and not _reads_shared(fn, d):   # (a declaration on the cycle creates the variable afresh in every iteration)
                 for o in outside.get(nm, ()):
                     if fn.expr(o) != fn.expr(d):
                         variant.add(nm)
@@ -236,6 +245,19 @@ def _cycle_locals(fn, cyc, purity):
                 variant.add(nm)
                 changed = True
     return set(defs), variant
+
+
+def _reads_shared(fn, nid):
+    """the expression contains an atomic load / a guard acquisition (its value is 'what shared memory holds now')"""
+    for x in fn.subtree(nid):
+        n = fn.nodes[x]
+        if n["k"] == "call":
+            a = fn.atomic(x)
+            if a and a["kind"] == "load":
+                return True
+            if n.get("callee", "").split("::")[-1] in ("acquire", "acquire_if_equal", "acquire_guard"):
+                return True
+    return False
 
 
 def fn_is_param(fn, nm):
